@@ -43,11 +43,22 @@ Definition rc_fun (c : rcbk) : rcallback := fun acc e i all =>
   end.
 
 Inductive obs := OVal (res : elem) (after : list elem) | OThrow | OPanic | OOther.
+(* a step as the engine ran it: named callbacks *)
+Inductive sstep := SsCall (m : meth) (args : list elem) | SsCb (m : meth) (c : cbk) | SsRed (c : rcbk) (init : list elem).
+Definition step_of (s : sstep) : step :=
+  match s with
+  | SsCall m args => StCall m args
+  | SsCb m c => StCb m (cb_fun c)
+  | SsRed c init => StRed (rc_fun c) init
+  end.
+Definition step_meth (s : sstep) : meth :=
+  match s with SsCall m _ => m | SsCb m _ => m | SsRed _ _ => MReduce end.
 Inductive case :=
 | CCall (m : meth) (recv args : list elem) (o : obs)
 | CCb (m : meth) (c : cbk) (recv : list elem) (o : obs)
 | CRed (c : rcbk) (recv init : list elem) (o : obs)
-| CLen (recv : list elem) (o : obs).
+| CLen (recv : list elem) (o : obs)
+| CSeq (recv : list elem) (steps : list (sstep * obs)).
 
 Definition pair_agree (p : elem * list elem) (o : obs) : bool :=
   match o with OVal r a => elem_eqb (fst p) r && list_eqb (snd p) a | _ => false end.
@@ -73,6 +84,29 @@ Definition frame_ok (m : meth) (recv : list elem) (o : obs) : bool :=
   | _ => true
   end.
 Definition not_panic (o : obs) : bool := match o with OPanic => false | _ => true end.
+
+(* sequences: failing clause numbers are 10*(step index + 1) + clause *)
+Fixpoint check_seq (i : nat) (l : list elem) (steps : list (sstep * obs)) : list nat :=
+  match steps with
+  | [] => []
+  | (s, o) :: r =>
+      let p := do_step l (step_of s) in
+      let base := (10 * (i + 1))%nat in
+      (if pair_agree p o then [] else [(base + 1)%nat]) ++
+      (match s with
+       | SsCall MSort _ => match o with
+                           | OVal (EArr res) a => if stable_sort_of l res && list_eqb res a then [] else [(base + 2)%nat]
+                           | _ => [(base + 2)%nat]
+                           end
+       | _ => match spec_step l (step_of s) with
+              | Some q => if pair_agree q o then [] else [(base + 2)%nat]
+              | None => []
+              end
+       end) ++
+      (if frame_ok (step_meth s) l o then [] else [(base + 3)%nat]) ++
+      (if not_panic o then [] else [(base + 4)%nat]) ++
+      check_seq (S i) (snd p) r
+  end.
 
 Definition check_case (c : case) : list nat :=
   match c with
@@ -105,4 +139,5 @@ Definition check_case (c : case) : list nat :=
       (if not_panic o then [] else [4%nat])
   | CLen recv o =>
       (if pair_agree (EInt (zlen recv), recv) o then [] else [1%nat; 2%nat])
+  | CSeq recv steps => check_seq 0 recv steps
   end.
